@@ -100,7 +100,7 @@ Proof. vm_compute. repeat split. Qed.
 (* ================================================================== progress on the code model
    (C03/Round.v): one validator's state machine (C02/Model.v) over ARBITRARY states. *)
 From Coq Require Import Lia.
-From TM Require Import C02.ProofsVoteSet C02.ProofsOrder C03.SyncWeak C03.Round C03.Pending C03.Tally C03.SyncModel C03.SyncNet C03.Unsettled C03.SyncExample.
+From TM Require Import C02.ProofsVoteSet C02.ProofsOrder C02.ProofsLock C03.SyncWeak C03.Round C03.Pending C03.Tally C03.SyncModel C03.SyncNet C03.Unsettled C03.SyncExample.
 
 (* (d) no step is a dead end: a timeout the ticker holds for the current height and round and
    for a step not yet passed (NewHeight / Propose / PrevoteWait / PrecommitWait) moves
@@ -134,8 +134,9 @@ Example C03_timeouts_nonvacuous :
 Proof. vm_compute. repeat split; auto. Qed.
 
 (* (a) the complete valid proposal (message, then its single part) at step Propose or earlier
-   makes the machine sign a prevote: for the proposal when unlocked, for its locked block when
-   locked (so: for the proposal when locked on it) *)
+   makes the machine sign a prevote, after the unlock rule of the prevote step (unlock_known, the
+   repair of F70): for the proposal when unlocked, for its locked block when still locked (so: for
+   the proposal when locked on it) *)
 Theorem C03_progress_prevote :
   forall (E : env) (s : cstate) (p : proposal) (b : block) (s1 : cstate) (o1 : list output) (s2 : cstate) (o2 : list output),
     cs_halted s = false -> step_rank (cs_step s) <= 3 ->
@@ -144,8 +145,9 @@ Theorem C03_progress_prevote :
     good_proposal E s p b ->
     handle E s (IProposal p) = (s1, o1) ->
     handle E s1 (IPart (cs_height s) (snd (pr_bid p)) 0%N (Some b)) = (s2, o2) ->
-    let target := match cs_lblock s with
-                  | Some lb => block_id_of lb (cs_lparts s)
+    let u := unlock_known (cs_round s) s in
+    let target := match cs_lblock u with
+                  | Some lb => block_id_of lb (cs_lparts u)
                   | None => Some (pr_bid p)
                   end in
     o1 = [] /\
@@ -154,7 +156,7 @@ Theorem C03_progress_prevote :
       (o_maj23 (prevotes (cs_votes s) (cs_round s)) = None ->
          rest = [] /\ cs_halted s2 = false /\ cs_height s2 = cs_height s /\ cs_round s2 = cs_round s /\
          cs_step s2 = SPrevote /\ cs_proposal s2 = Some p /\ cs_pblock s2 = Some b /\
-         cs_pparts s2 = Some (one_part (snd (pr_bid p))) /\ cs_scheduled s2 = cs_scheduled s /\ same_locks s s2).
+         cs_pparts s2 = Some (one_part (snd (pr_bid p))) /\ cs_scheduled s2 = cs_scheduled s /\ same_locks u s2).
 Proof. exact progress_prevote. Qed.
 Print Assumptions C03_progress_prevote.
 
@@ -239,8 +241,11 @@ Print Assumptions C03_sync_round_decides_network.
 
 (* the link to the value-level argument: the machines abstracted by [abs] (power, lock round /
    locked block hash, valid round / valid block hash) satisfy the part InvL of Sync.v's invariant that the prevote step needs (locks backed by
-   polkas — discharged from reachability by C03_reachable_inv_partial — and one polka per round) with the known polkas, the unlock rule has been applied (see C03_sync_without_settled_refuted), and the
-   proposal is the one Sync.v's good round asks for (premise of C03_good_round_decides) *)
+   polkas — discharged from reachability by C03_reachable_inv_partial — and one polka per round) with the known polkas, every machine holds the polkas of pol (idealised gossip; the
+   prevote step applies the unlock rule itself since the repair of F70: C03_prevote_applies_unlock_rule,
+   C03_sync_lock_ok - before the repair "the unlock rule has been applied" was a hypothesis that the
+   code did not guarantee, C03_sync_without_settled_refuted), and the proposal is the one Sync.v's
+   good round asks for (premise of C03_good_round_decides) *)
 Theorem C03_sync_round_decides_on_model :
   forall (vals : valset) (h r : Z) (p : proposal) (b : block) (hb : N) (ph : psh)
          (sig : nat -> N -> N) (peer : nat -> N) (ms : list machine)
@@ -252,7 +257,7 @@ Theorem C03_sync_round_decides_on_model :
     (forall m, In m ms -> ready_core (m_env m) h r p b hb ph (map m_idx ms) vals (m_state m) /\
                           lock_wf r b hb ph (m_state m)) ->
     InvL pol (nodes vals ms) ->
-    (forall n, In n (nodes vals ms) -> unlock pol n = n) ->
+    (forall m q, In m ms -> In q pol -> fst q <= r /\ holds_polka (m_state m) q) ->
     In mp ms ->
     hb = proposal_of fresh (unlock pol (abs (power_of vals (m_idx mp)) (m_state mp))) ->
     Model.total_power vals = Sync.total_power (nodes vals ms) + faulty_power -> 0 <= faulty_power ->
@@ -275,12 +280,14 @@ Example C03_sync_round_nonvacuous :
           ex_ms = true.
 Proof. exact (conj ex_ready (conj ex_quorum (conj ex_schedule_length ex_all_decide))). Qed.
 
-(* REFUTED without "the unlock rule has been applied": a reachable machine that holds the polka
-   of round 1 for block 7 among its prevotes, is in round 2, and is still locked on block 5 from
-   round 0 — Sync.v releases the lock and has it prevote the proposal (7, POL round 1); the code
-   model prevotes 5.  consensus/state.go applies the unlock rule only when the completing
-   prevote is added while vote.Round <= cs.Round and in enterPrecommit of that round; round
-   skipping jumps over both (C03/Unsettled.v; replayed on the real code, fixes/F70). *)
+(* Finding F70, REPAIRED; the regression witness.  A reachable machine that holds the polka of round 1
+   for block 7 among its prevotes, is in round 2, and is still locked on block 5 from round 0
+   (consensus/state.go applies the unlock rule in addVote only when the completing prevote is added
+   while vote.Round <= cs.Round, and in enterPrecommit of that round; round skipping jumps over
+   both).  Sync.v releases the lock and has it prevote the proposal (7, POL round 1).  The
+   UNREPAIRED defaultDoPrevote (Model.do_prevote_unfixed) prevotes 5 - with 4 equal validators, one
+   silent, the three correct ones then never decide (replayed on the real code; the C03 harness
+   has the directed scenario) - the repaired step (the model of record) prevotes 7. *)
 Theorem C03_sync_without_settled_refuted :
   exists (E : env) (ins : list input) (pol : list polka) (p : proposal) (b : block),
     let s := fst (run E (init_state E 1 None) ins) in
@@ -293,8 +300,10 @@ Theorem C03_sync_without_settled_refuted :
     is_latest pol (1, Some (b_hash b)) /\
     prevote_of (b_hash b) (unlock pol n) = b_hash b /\
     n_lock n = Some (0, 5%N) /\
+    snd (do_prevote_unfixed E (set_prop (Some p) (Some b) (Some (one_part (snd (pr_bid p)))) s)) =
+      [OSignVote PREVOTE 1 2 (Some (5%N, (1%N, 50%N)))] /\
     concat (snd (run E s [IProposal p; IPart 1 (snd (pr_bid p)) 0%N (Some b)])) =
-      [OSignVote PREVOTE 1 2 (Some (5%N, (1%N, 50%N)))].
+      [OSignVote PREVOTE 1 2 (Some (7%N, (1%N, 70%N)))].
 Proof. exact sync_without_settled_refuted. Qed.
 Print Assumptions C03_sync_without_settled_refuted.
 
@@ -349,16 +358,14 @@ Theorem C03_locked_node_is_good_proposer_weak :
 Proof. exact locked_node_is_good_proposer'. Qed.
 Print Assumptions C03_locked_node_is_good_proposer_weak.
 
-(* six further synchronous rounds of the refutation's machine: it prevotes its old locked block
-   in every one of them and is still locked at the end (see C03/Unsettled.v) *)
-Example C03_unsettled_six_rounds :
-  let '(s', os) := run w_env w_state w_suffix in
-  w_signed_votes os =
-    flat_map (fun rho => [(PREVOTE, 1, rho, w_X); (PRECOMMIT, 1, rho, None)]) [2; 3; 4; 5; 6; 7] /\
-  (cs_halted s', cs_height s', cs_round s', cs_step s') = (false, 1, 8, SPropose) /\
-  (cs_lround s', cs_lblock s') = (0, Some {| b_hash := 5%N; b_valid := true |}) /\
-  existsb (fun o => match o with ODecide _ _ _ => true | _ => false end) (concat os) = false.
-Proof. exact w_six_rounds_without_progress. Qed.
+(* with the repaired prevote step the refutation's machine, in the synchronous round 2, prevotes the
+   proposal, locks it on the polka, precommits it and decides *)
+Example C03_repaired_round_decides :
+  let '(s', os) := run w_env w_state w_round2_fixed in
+  w_signed_votes os = [(PREVOTE, 1, 2, w_Y); (PRECOMMIT, 1, 2, w_Y)] /\
+  existsb (fun o => match o with ODecide 1 2 7%N => true | _ => false end) (concat os) = true /\
+  (cs_halted s', cs_height s') = (false, 2).
+Proof. exact w_round2_decides_when_repaired. Qed.
 
 (* ================================================================== every step that waits for a
    timeout has it in the ticker (C03/Pending.v): an invariant of ALL runs from the initial
@@ -473,7 +480,7 @@ Theorem C03_sync_round_decides_on_model_faulty :
     (forall m, In m ms -> ready_core (m_env m) h r p b hb ph (map m_idx ms) vals (m_state m) /\
                           lock_wf r b hb ph (m_state m)) ->
     InvL pol (nodes vals ms) ->
-    (forall n, In n (nodes vals ms) -> unlock pol n = n) ->
+    (forall m q, In m ms -> In q pol -> fst q <= r /\ holds_polka (m_state m) q) ->
     In mp ms ->
     hb = proposal_of fresh (unlock pol (abs (power_of vals (m_idx mp)) (m_state mp))) ->
     Model.total_power vals = Sync.total_power (nodes vals ms) + faulty_power -> 0 <= faulty_power ->
@@ -537,23 +544,6 @@ Theorem C03_reachable_inv_partial :
 Proof. exact reachable_abs_backed. Qed.
 Print Assumptions C03_reachable_inv_partial.
 
-(* even the weaker clause (valid round >= lock round OR valid block = locked block) is not an
-   invariant of the code: a reachable machine locked on block 5 in round 2 whose valid block is
-   block 7 of round 1; as proposer it would re-propose 7 although the latest polka is for 5, so
-   C03_locked_node_is_good_proposer(_weak) does not transfer to the code for such a node (a
-   wasted round; C03/Unsettled.v) *)
-Theorem C03_lock_on_other_than_valid_reachable :
-  exists (E : env) (ins : list input),
-    let s := fst (run E (init_state E 1 None) ins) in
-    let n := abs 10 s in
-    let pol : list polka := [(0, Some 5%N); (1, Some 7%N); (2, Some 5%N)] in
-    cs_halted s = false /\
-    (forall rr v, In (rr, Some v) pol -> exists ph, o_maj23 (prevotes (cs_votes s) rr) = Some (Some (v, ph))) /\
-    n_lock n = Some (2, 5%N) /\ n_valid n = Some (1, 7%N) /\
-    ~ Inv' pol [n] /\
-    is_latest pol (2, Some 5%N) /\ proposal_of 9%N (unlock pol n) = 7%N.
-Proof. exact lock_on_other_than_valid_reachable. Qed.
-Print Assumptions C03_lock_on_other_than_valid_reachable.
 
 (* what the prevote step of a good round needs of the invariant: locks backed by polkas and one
    polka per round (InvL, implied by Inv' and Inv); the valid-block clauses only concern what a
@@ -572,13 +562,29 @@ Theorem C03_inv_weaken_lock :
 Proof. exact Inv'_InvL. Qed.
 Print Assumptions C03_inv_weaken_lock.
 
-(* the repair proposed for F70 (fixes/F70-*.diff), transcribed (C03/FixF70.v: unlock_known,
-   do_prevote_fixed), evaluated on the refutation's machine: it is unlocked exactly as Sync.v's
-   unlock rule says and prevotes the proposal *)
-From TM Require Import C03.FixF70.
-Example C03_fix_F70_on_witness :
-  cs_lblock (unlock_known 2 w_state) = None /\
-  n_lock (abs 10 (unlock_known 2 w_state)) = n_lock (unlock w_pol (abs 10 w_state)) /\
-  snd (do_prevote_fixed w_env 2 (set_prop (Some w_p) (Some w_b) (Some (one_part (1%N, 70%N))) w_state)) =
-    [OSignVote PREVOTE 1 2 (Some (7%N, (1%N, 70%N)))].
-Proof. exact fixed_unlocks_witness. Qed.
+
+(* ================================================================== the prevote step applies the unlock
+   rule (repair of F70; C03/Round.v): after enterPrevote no polka the node holds for a round in
+   (LockedRound, round] is for something else than its locked block.  Over arbitrary states. *)
+Theorem C03_prevote_applies_unlock_rule :
+  forall (E : env) (h r : Z) (s s' : cstate) (o : list output),
+    cs_halted s = false -> cs_height s = h -> cs_round s = r -> step_rank (cs_step s) < 4 ->
+    enter_prevote E h r s = (s', o) ->
+    cs_step s' = SPrevote /\
+    forall lb, cs_lblock s' = Some lb ->
+    forall r' polka, cs_lround s' < r' <= r -> o_maj23 (prevotes (cs_votes s') r') = Some polka ->
+                     ProofsLock.bhash polka = Some (b_hash lb).
+Proof. exact prevote_applies_unlock_rule. Qed.
+Print Assumptions C03_prevote_applies_unlock_rule.
+
+(* ... and it is Sync.v's unlock rule: if the machine holds the polkas of pol (all of rounds <= r)
+   and Sync.v's node, after ITS unlock rule, prevotes the proposal hb, then the machine after
+   the unlock rule of its prevote step is unlocked or locked on the proposal block *)
+Theorem C03_sync_lock_ok :
+  forall (r : Z) (b : block) (hb : N) (ph : psh) (pol : list polka) (pw : Z) (s : cstate),
+    lock_wf r b hb ph s ->
+    (forall q, In q pol -> fst q <= r /\ holds_polka s q) ->
+    prevote_of hb (unlock pol (abs pw s)) = hb ->
+    lock_ok r b ph (unlock_known r s).
+Proof. exact sync_lock_ok. Qed.
+Print Assumptions C03_sync_lock_ok.
